@@ -1,5 +1,6 @@
 mod checks;
 mod common;
+mod gen;
 mod ops;
 mod prog;
 mod progcheck;
@@ -69,6 +70,7 @@ fn main() {
     let opts = Opts { id: id.clone(), tier, seed, only, threads, verbose };
     let start = Instant::now();
     let ex = match id.as_str() {
+        "C01" => checks::c01::explore(&opts),
         "C02" => checks::c02::explore(&opts),
         "C03" => checks::c03::explore(&opts),
         "C04" => checks::c04::explore(&opts),
